@@ -350,7 +350,7 @@ def disjoint_grammars():
 def plan(tier, seed):
     quick = tier == 'quick'
     slices = []
-    Ks = {'kwid': 12, 'prio': 5, 'prio2': 9, 'eqw': 6, 'ci': 10, 'ign_inline': 6, 'xflag': 6}
+    Ks = {'kwid': 12, 'prio': 5, 'prio2': 9, 'eqw': 6, 'ci': 10, 'ign_inline': 6, 'xflag': 6, 'ciflag': 8}
     budget = 60 if quick else 1200
     for g, k in Ks.items():
         for by in (False, True):
